@@ -99,4 +99,20 @@ PROPS = {
         "level_note": "Trusted: Coq kernel + vm_compute; float quotient order modelled on counts (not proved); hand model tied by differential testing; the 'mapped dictionary tokenizes identically' part is C06's theorem, here only observed on the implementation.",
         "technique": "machine-checked proof in Coq (scan invariant relating evaluation log and counted events; permutation characterisation of ConnIdMapper::parse; sortedness of the statistics) + checked model/code correspondence",
     },
+    "C01": {
+        "theorems": ["c01_partition", "c01_ordered", "c01_cover", "c01_byte_offsets", "c01_terminates", "c01_empty", "c01_no_panic_refuted"],
+        "check_targets": ["Check/C01Check.vo"],
+        "case_type": "tokcase",
+        "report_fn": "c01_report",
+        "n": {"quick": 900, "thorough": 20000},
+        "rule": TOK_RULE + "; C01: dictionaries may leave categories without unk.def rows (the known-finding class K1 is generated on purpose); non-trivial: a sentence with at least two tokens and at least one multi-byte character (byte and character ranges differ)",
+        "trusted_base": TOK_TRUSTED + [
+            "the boolean oracle (Check/C01Check.v) is the executable counterpart of tok_seq/token_ok/tail_ok; its equivalence with the Prop statement is by inspection, not proved",
+            "UTF-8 encoding itself is not modelled: surfaces are code-point lists, byte offsets are sums of utf8_len",
+        ],
+        "assumptions": ["'never panics' is not proved: it is false of the pinned tree for dictionaries with a category lacking unk.def rows (known finding K1, c01_no_panic_refuted) and otherwise only observed by the correspondence (dev profile: overflow and debug assertions panic)"],
+        "level_text": "Coq theorems c01_partition / c01_ordered / c01_cover / c01_byte_offsets / c01_terminates / c01_empty about the model of tokenizer.rs + lattice.rs + worker.rs + token.rs + sentence.rs + unknown.rs: for every dictionary, option setting and sentence, whenever tokenization completes the tokens are non-empty, ordered, non-overlapping, inside the sentence, each starts where the previous ended or after a skipped run beginning with a SPACE character, byte ranges are the UTF-8 offsets of the character ranges, surfaces are the input slices, feature/lex type/ids/cost are those of the named dictionary entry (lattice-wide node invariant through a generic induction over the scan loop), without ignore_space the surfaces concatenate to the input, the loop never exhausts its fuel, and the empty string gives no tokens. Tied to the code on every run by comparing real tokens, lattice dumps, char infos and groupable with the model, and by an oracle evaluating the same predicate on the implementation's tokens.",
+        "level_note": "Partial: totality ('never panics') is not a theorem — refuted for the known-finding class K1 (c01_no_panic_refuted) and outside it only observed (a panic outside K1 is reported as a violation). Trusted: Coq kernel + vm_compute; hand model tied by differential testing; crawdad at list level; UTF-8 encoder not modelled.",
+        "technique": "machine-checked proof in Coq (lattice-wide node invariant by induction over the scan loop + Viterbi path structure) + checked model/code correspondence",
+    },
 }
